@@ -14,7 +14,7 @@ RULE = (
     "record after n yields"
 )
 BOUNDS = {
-    "quick": "C13 programs with k<=2 (windows {*, 1*, 1-2, 0+2}; with return-mode no-matches on *) + 20 writer singles (windows {*, 1-2}, both return modes) + 380 ordered pairs (window *); all files of <=3 records over {k,n,blank}; every n",
+    "quick": "C13 programs with k<=2 (windows {*, 1*, 1-2, 0+2}; with return-mode no-matches and unmatched-mode keep on * and 1-2) + 20 writer singles (windows {*, 1-2}, both return modes, unmatched-mode keep) + 380 ordered pairs (window *); all files of <=3 records over {k,n,blank}; every n",
     "thorough": "C13 programs with k<=3 + writer singles/pairs/selected triples; files of <=4 records; 9 windows; every n",
 }
 ASSUMPTIONS = ["differential oracle: no expected values, the three methods must agree with each other", "error policy collect"]
@@ -60,16 +60,20 @@ def cases(tier, seed):
     wwins = [star, [["range", 1, 2]]] if tier == "quick" else wins
     pwins = [star] if tier == "quick" else wins
     nm = "~ return-mode: no-matches ~ "
+    um = "~ unmatched-mode: keep ~ "
     for pat in c13.files(nmax):
         for w in wins:
             for m in progs:
                 yield {"file": pat, "scan": w, "match": m}
         for m in progs:
             yield {"file": pat, "scan": star, "match": m, "pre": nm}
+            yield {"file": pat, "scan": star, "match": m, "pre": um}
+            yield {"file": pat, "scan": [["range", 1, 2]], "match": m, "pre": um}
         for w in wwins:
             for m in singles:
                 yield {"file": pat, "scan": w, "match": m}
                 yield {"file": pat, "scan": w, "match": m, "pre": nm}
+                yield {"file": pat, "scan": w, "match": m, "pre": um}
         for w in pwins:
             for m in pairs:
                 yield {"file": pat, "scan": w, "match": m}
@@ -81,7 +85,7 @@ def sample(case):
     return {"file": case["file"], "scan": refscan.render(case["scan"]), "match": case["match"], "comment": case.get("pre", "")}
 
 
-KEYS_ALL = ["vars", "priv", "scan_count", "match_count", "is_valid", "stopped", "errors", "printouts", "exc", "unmatched"]
+KEYS_ALL = ["vars", "priv", "scan_count", "match_count", "is_valid", "stopped", "errors", "printouts", "exc", "last_line"]  # `unmatched` is kept by collect() only (not in the statement)
 
 
 def run_case(case):
